@@ -6,7 +6,7 @@ RULE = ('no cases of its own: the model functions of the theorems (poly_thick_po
         'p_thick_join (C07_join.py) compares the pixel maps of pixels() and draw() on the implementation for thick polylines and stroked triangles')
 PARTIAL = ['C01_join_triangle_pixels_draw carries the computable hypothesis jt_fused (the first next() of the non-fused triangle::ScanlineIterator '
            'does not answer None while a later row has lines). It is a theorem for stroke width 0 and for the collapsed Inside stroke '
-           '(C01_join_triangle_fused_fill_like) and follows from C19_join_tri_outline_w1 for width 1 / Center; for the remaining strokes it is '
+           '(C01_join_triangle_fused_fill_like) and for the stroke-only 1 px outline with every alignment (C01_join_triangle_fused_w1_any, hence C01_join_triangle_pixels_draw_w1_any without the hypothesis) and for width 1 together with a fill colour (C01_join_triangle_pixels_draw_w1_fill); with is_collapsed decided for width 1 (collapsed <-> no area) this gives C01_join_triangle_pixels_draw_w1_all: every triangle, alignment and fill with stroke width 1; for the remaining strokes it is '
            'evaluated by the model oracle on every generated triangle (suite join_tri_fused, never false; exhaustive on a 6x6 grid for widths 1..3) '
            'and searched on the implementation by p_thick_join, but not proved: that needs the top corner of the stroke to lie on a DRAWN edge '
            'for every join kind, skeleton segments included']
